@@ -1472,7 +1472,7 @@ class Operation(_IRNode):
         if (
             self.parent is not None
             and other.parent is not None
-            and context.get(self.parent) != other.parent
+            and context.get(self.parent, other.parent) != other.parent
         ):
             return False
         if not all(
